@@ -214,7 +214,7 @@ def pinitPre (st : St) (opS : String) : St × String :=
   | ["pinit", ks, ke] =>
     let b := bootInit (nat! ks) (nat! ke)
     ({ st with boot := b, kFrames := (nat! ks / 4096, (nat! ke + 4095) / 4096 - 1), bootTaken := [],
-               held := [], inited := false, stats := st.stats.bump "pinit" }, "init 1 -1")
+               held := [], inited := false, bootOom := false, stats := st.stats.bump "pinit" }, "init 1 -1")
   | _ => (st, opS)
 
 def processLine (st : St) (line : String) : IO St := do
